@@ -11,3 +11,7 @@ import NutilsVerif.Props.C05Eval
 import NutilsVerif.Props.C13
 import NutilsVerif.Props.C16
 import NutilsVerif.Props.C17
+import NutilsVerif.Props.C07
+import NutilsVerif.Props.C08
+import NutilsVerif.Props.C14
+import NutilsVerif.Props.C18
